@@ -17,7 +17,7 @@ EXPL = (
     "mouse is fixed only on xxDF-style addresses), and unclaimed reads must fall to the floating bus.  The extender is "
     "consulted with the same port, receives exactly the ports it claims and pre-empts every other device.  ULA read: the "
     "result is the AND of the three key matrices over exactly the rows whose address line is low, bit 6 toggled by the "
-    "tape level; ULA write: border = data[0..2], MIC bit 3, speaker bit 4.  NOT decided: the floating-bus byte itself."
+    "tape level; ULA write: border = data[0..2], MIC bit 3, speaker bit 4.  Floating bus: the extracted function of the frame clock returns 0xFF at every T outside the ULA's fetch slots and, inside them (bitmap, attribute, bitmap+1, attribute+1, four idle T, from first-picture-T + 2 on each of the 192 lines), the byte at the fetched display / attribute offset of the RAM page that is being displayed (page 7 while the 128K shadow screen is selected)."
 )
 
 DEV = {"none": 12, "ext": 1, "ula": 2, "mouse_b": 3, "mouse_x": 4, "mouse_y": 5, "ay": 6, "kemp": 7, "float": 8,
@@ -39,7 +39,130 @@ def run(chk):
         decode(chk, prog, names, m, "read_io")
         decode(chk, prog, names, m, "write_io")
     chk.floor("decode-rows", 2 * 2 * 65536 * 12)
+    chk.rule("T-TABLE/float", "floating-bus byte: closed form of floating_bus_value over the frame clock == 0xFF outside the ULA's fetch slots, the fetched display/attribute byte of the displayed screen page inside them")
+    for m in names.machine_variants():
+        floating_bus(chk, prog, names, m)
+    chk.floor("float-rows", 2 * 69888)
     return chk.finish(EXPL, extra={"exhaustive": True})
+
+
+def floating_bus(chk, prog, names, m):
+    """The byte returned for an unclaimed port, as a function of the frame clock T (all T of the frame tabulated from
+    the extracted paths; nothing is executed):  idle -> 0xFF;  in the 128 T of each of the 192 picture lines the ULA
+    fetches bitmap, attribute, bitmap+1, attribute+1 and then rests 4 T (first fetch at first-picture-T + 2: 14338 on
+    the 48K, 14364 on the 128K, as in the published floating-bus timings); the byte comes from the RAM page the ULA is
+    displaying (48K: page 0 = 0x4000; 128K: page 5, or page 7 while bit 3 of the paging latch is set)."""
+    import numpy as np
+    spec = cc.specs_of(prog, names, m)
+    first, line, frame = spec.get("clocks_first_pixel"), spec.get("clocks_line"), spec.get("clocks_frame")
+    key = "T-TABLE/ZXController::floating_bus_value/%s" % m
+    if None in (first, line, frame):
+        chk.undecided_(key + "/specs", "machine constants not constant-folded: %s" % spec)
+        return
+    MEMREAD = prog.fn_path("rustzx_core", "ZXMemory::read")
+    RPD = prog.fn_path("rustzx_core", "ZXMemory::ram_page_data")
+    w = Walker(prog)
+    w.opaque_paths |= {MEMREAD, RPD}
+
+    def hook(w_, st, path, a, d, wh):
+        if path == MEMREAD:
+            return EffectResult(tm.sym("MEM%d" % len(st.trace), 8), havoc=False)
+        if path == RPD:
+            return None
+        return None
+    w.effect_hook = hook
+    SB = tm.sym("SCREEN_BANK", 8)
+    st = cc.controller_state(w, prog, names, m, overrides={"screen_bank": SB})
+    rs = w.run(prog.fn(names.ctl("floating_bus_value")), [Ref(cc.CTL, (), False)], genv=cc.GENV, state=st)
+    bad = [r for r in rs if r.outcome != "return"]
+    if bad or not rs:
+        chk.undecided_(key + "/paths", "exploration failed: %s" % [(r.outcome, r.detail) for r in (bad or rs)][:2])
+        return
+    T_ = np.arange(frame, dtype=np.uint64)
+    env = {"FC": T_}
+    # oracle
+    rel = T_.astype(np.int64) - (first + 2)
+    row = rel // line
+    tin = rel % line
+    fetch = (rel >= 0) & (row < 192) & (tin < 128) & ((tin & 4) == 0)
+    col = (tin // 8) * 2 + (tin % 8) // 2
+    is_attr = (tin % 2) == 1
+    r_ = np.clip(row, 0, 191)
+    baddr = 0x4000 | ((r_ << 5) & 0x1800) | ((r_ << 8) & 0x0700) | ((r_ << 2) & 0x00E0) | col
+    aaddr = 0x5800 + (r_ // 8) * 32 + col
+    want_addr = np.where(is_attr, aaddr, baddr)
+    covered = np.zeros(frame, dtype=bool)
+    wrong = []
+    for r in rs:
+        try:
+            mask_ = cc.path_mask(r, dict(env, SCREEN_BANK=np.zeros(frame, dtype=np.uint64)), frame)
+        except Exception as e:
+            chk.undecided_(key + "/conditions", "path condition not a function of the frame clock: %s" % e)
+            return
+        if not mask_.any():
+            continue
+        if (covered & mask_).any():
+            chk.undecided_(key + "/overlap", "two paths claim the same clocks")
+            return
+        covered |= mask_
+        ret = r.ret
+        reads = [e for e in r.trace if e.path in (MEMREAD, RPD)]
+        if isinstance(ret, T) and ret.is_const():
+            bad_ = mask_ & (fetch | (ret.val != 0xFF))
+            if bad_.any():
+                wrong.append("constant 0x%02X returned at %d clocks where the ULA is fetching (e.g. T=%d)" % (ret.val, int(bad_.sum()), int(T_[bad_][0])) if ret.val == 0xFF else
+                             "constant 0x%02X returned (e.g. T=%d)" % (ret.val, int(T_[mask_][0])))
+            continue
+        # a memory byte
+        idle = mask_ & ~fetch
+        if idle.any():
+            wrong.append("a memory byte is returned at %d clocks where the ULA is idle (e.g. T=%d): documented 0xFF" % (int(idle.sum()), int(T_[idle][0])))
+            continue
+        if len(reads) != 1:
+            wrong.append("the byte returned inside the fetch window is not one memory read: %s" % (ret,))
+            continue
+        e = reads[0]
+        if e.path == MEMREAD:
+            if not (isinstance(ret, T) and ret.op == "sym" and ret.args[0].startswith("MEM")):
+                wrong.append("the returned value is not the byte read: %s" % (ret,))
+                continue
+            addr = e.args[1]
+            got = np.asarray(tm.evaluate(addr, env)).astype(np.int64) if not addr.is_const() else np.full(frame, addr.val)
+            diff = mask_ & (got != want_addr)
+            if diff.any():
+                t0 = int(T_[diff][0])
+                wrong.append("address read at T=%d is 0x%04X; the ULA fetches 0x%04X there (%d clocks differ)" % (t0, int(got[diff][0]), int(want_addr[diff][0]), int(diff.sum())))
+                continue
+            # read through the CPU's map at 0x4000-0x5AFF: that is page 0 (48K) / page 5 (128K) whatever is displayed
+            if m != "Sinclair48K":
+                sb = c04.cc_decide(r, tm.cmp("eq", SB, K(5, 8)))
+                if sb is not True:
+                    wrong.append("the byte is read through the CPU address 0x%04X.. (always RAM page 5) although the path does not know that page 5 is the displayed screen: with bit 3 of 0x7FFD set the ULA fetches page 7" % int(want_addr[mask_][0]))
+        else:
+            # ram_page_data(page)[offset]
+            page = e.args[1]
+            okp = (page is SB) or (isinstance(page, T) and m == "Sinclair48K" and page.is_const() and page.val == 0)
+            if not okp:
+                wrong.append("the byte is taken from RAM page %s; the ULA fetches the displayed page (screen_bank)" % (page,))
+                continue
+            nm = tm.show(ret) if isinstance(ret, T) else getattr(ret, "name", str(ret))
+            idx = w.read_index.get(nm) if hasattr(w, "read_index") else None
+            if idx is None:
+                chk.undecided_(key + "/offset", "offset of the byte inside the page not recovered: %s" % nm)
+                return
+            got = np.asarray(tm.evaluate(idx, env)).astype(np.int64) + 0x4000 if not idx.is_const() else np.full(frame, idx.val + 0x4000)
+            diff = mask_ & (got != want_addr)
+            if diff.any():
+                t0 = int(T_[diff][0])
+                wrong.append("offset read at T=%d is 0x%04X; the ULA fetches 0x%04X there (%d clocks differ)" % (t0, int(got[diff][0]) - 0x4000, int(want_addr[diff][0]) - 0x4000, int(diff.sum())))
+    if not covered.all():
+        chk.undecided_(key + "/coverage", "%d clocks of the frame are covered by no path" % int((~covered).sum()))
+        return
+    for i, wmsg in enumerate(sorted(set(wrong))):
+        chk.fail(key + ("/source" if "page" in wmsg and "CPU address" in wmsg else "/value/%d" % i), "%s floating bus: %s" % (m, wmsg))
+    if not wrong:
+        chk.ok()
+    chk.count("float-rows", frame)
 
 
 def leaf_markers(prog, names):
